@@ -1,6 +1,6 @@
 (* C02/Proofs.v — property-level corollaries of the node-level step summaries (Raft/NodeProofs.v). *)
 From Coq Require Import List NArith ZArith Bool Lia.
-From BLB Require Import Raft.Core Raft.NodeProofs.
+From BLB Require Import Raft.Core Raft.NodeProofs Raft.NodeElect Raft.NodeMono.
 Import ListNotations.
 Open Scope N_scope.
 
@@ -34,3 +34,11 @@ Lemma run_event_crash_0 s ev : run_event_crash s ev 0 =
   | Crashed p => s' <- new_core (n_id s) (n_cfg s) p ;; Ret (true, 0, s')
   end.
 Proof. reflexivity. Qed.
+
+Lemma messages_follow_durable_state_lemma :
+  forall s ev st s', n_msgs s = [] -> run_event s ev = Ret (st, s') -> msgs_ok s'.
+Proof. intros s ev st s' H R. destruct (run_event_sum s ev st s' H R) as [_ [M _]]. exact M. Qed.
+
+Lemma commit_monotone_lemma :
+  forall s ev st s', ev <> ERestart -> run_event s ev = Ret (st, s') -> n_commit s <= n_commit s'.
+Proof. intros s ev st s' Hne H. destruct (run_event_mono s ev st s' Hne H) as [A _]. exact A. Qed.
